@@ -79,6 +79,25 @@ func OracleC01(rc *sim.RunCtx, w *world.World, m *Model, step int, tx *TxSpec) {
 			f["keyleaf"] = "true"
 		}
 		f["edits"] = renderEdits(tx)
+		if exp.Reason == "losing-case" {
+			// is the choice instance located inside a list entry?
+			inList := false
+			for i := range p {
+				if node := w.SI.Node(p[:i+1]); node != nil && node.Choice != "" && strings.Contains(p[:i].String(), "[") {
+					inList = true
+				}
+			}
+			f["in_list"] = fmt.Sprint(inList)
+			to := false
+			for i := range p {
+				if node := w.SI.Node(p[:i+1]); node != nil && node.Choice != "" {
+					if m.Takeover(p[:i].String()+"|"+node.Choice, winners, tx) {
+						to = true
+					}
+				}
+			}
+			f["takeover"] = fmt.Sprint(to)
+		}
 		for i := 1; i < len(p); i++ {
 			if n := w.SI.Node(p[:i]); n != nil && n.Kind == world.KContainer && n.Presence {
 				if _, ok := m.Ever[p[:i].String()]; ok {
